@@ -43,7 +43,7 @@ from sdc11073.xml_types import pm_types
 from sdc11073.xml_types import xml_structure as cp
 from sdc11073.xml_types.actions import Actions
 from sdc11073.xml_types.basetypes import MessageType
-from sdc11073.xml_types.dataconverters import UnsignedIntConverter
+from sdc11073.xml_types.dataconverters import EnumConverter, IntegerConverter, UnsignedIntConverter
 from sdc11073.xml_types.pm_types import (
     ContainmentTree,
     InstanceIdentifier,
@@ -675,8 +675,10 @@ class GetLocalizedText(AbstractGet):
     Ref = cp.SubElementHandleRefListProperty(msg.Ref)
     Version = cp.NodeIntProperty(msg.Version, is_optional=True)
     Lang = cp.SubElementStringListProperty(msg.Lang)
-    TextWidth = cp.SubElementTextListProperty(msg.TextWidth, value_class=LocalizedTextWidth)
-    NumberOfLines = cp.SubElementTextListProperty(msg.NumberOfLines, value_class=int)
+    TextWidth = cp.SubElementTextListProperty(msg.TextWidth, value_class=LocalizedTextWidth,
+                                              element_converter=EnumConverter(LocalizedTextWidth))
+    NumberOfLines = cp.SubElementTextListProperty(msg.NumberOfLines, value_class=int,
+                                                  element_converter=IntegerConverter)
     _props = ('Ref', 'Version', 'Lang', 'TextWidth', 'NumberOfLines')
 
 
